@@ -70,7 +70,8 @@ def compare(t, rows, select, like_fold=True):
     return (None, {"n_expected": len(exp), "unspec_rows": len(us)}, flags, nontrivial)
 
 
-def judge(ctx, t, rng, select, keys_fn, cls, like_fold=True, cap=400, extra_case=None):
+def judge(ctx, t, rng, select, keys_fn, cls, like_fold=True, cap=400, extra_case=None,
+          profile=None):
     ctx.count("evaluations")
     cols = scalar.columns_of(t)
     rows = R.rows_for(cols, rng, cap)
@@ -91,7 +92,8 @@ def judge(ctx, t, rng, select, keys_fn, cls, like_fold=True, cap=400, extra_case
         rows2 = R.rows_for(scalar.columns_of(t2), rng, cap)
         p2 = compare(t2, rows2, select, like_fold)[0]
         return p2 == sigp
-    small = shrink(t, still, max_tries=120, accept=typed_ok)
+    accept = typed_ok if profile is None else (lambda x: typed_ok(x) and scalar.conforms(x, profile))
+    small = shrink(t, still, max_tries=120, accept=accept)
     if small is not t:
         rows2 = R.rows_for(scalar.columns_of(small), rng, cap)
         p2, d2, f2, _ = compare(small, rows2, select, like_fold)
